@@ -49,7 +49,7 @@ def spawn_shards(mod, prop_id, tier, seed, total, tmp, asan):
     nshards = max(1, min(getattr(mod, 'MAX_SHARDS', 16), total // per_shard_min or 1))
     per = (total + nshards - 1) // nshards
     bdir = build.backend(asan=asan)
-    cenv = env.child_env(bdir, asan=asan)
+    cenv = env.child_env(bdir, asan=asan, extra=getattr(mod, 'WORKER_ENV', None))
     procs = []
     for sh in range(nshards):
         out = os.path.join(tmp, 'shard-%d.json' % sh)
